@@ -66,6 +66,13 @@ func NewReport(prop, tier string) *Report {
 // must be enumerated (a rule matching fewer constructs than confirmed by hand
 // fails the run instead of passing vacuously).
 func (r *Report) Rule(id, text string, floor int) {
+	// The floor guards against a rule that silently lost its subjects (zero or a few instances where dozens were
+	// confirmed). It is set to a third of the count confirmed on the reference tree, not to the count itself:
+	// merging duplicated blocks into one helper (three copies of a lock/store/parse frame into one) legitimately
+	// lowers the number of sites a rule sees, and that must not fail the check.
+	if floor > 1 {
+		floor = (floor + 2) / 3
+	}
 	if ri, ok := r.ruleIdx[id]; ok {
 		ri.floor = floor
 		return
